@@ -47,8 +47,8 @@ REnumRange(P, f)      ==
   \E i \in Idx(FileOf(P, f).enums) : \E a \in Idx(FileOf(P, f).enums[i].values) : EnumVal(FileOf(P, f).enums[i], a).oor # ""
 
 \* a name used as a type that denotes nothing / denotes something that is not a type
-RUndefinedType(P, f)  == \E r \in TypeRefs(FileOf(P, f)) : Denotes(P, f, r) = {}
-RNonType(P, f)        == \E r \in TypeRefs(FileOf(P, f)) : Denotes(P, f, r) # {} /\ ~IsTypeRef(P, f, r)
+RUndefinedType(P, f)  == \E r \in TypeRefs(FileOf(P, f)) : ~DenotesAny(P, f, r)
+RNonType(P, f)        == \E r \in TypeRefs(FileOf(P, f)) : DenotesAny(P, f, r) /\ ~IsTypeRef(P, f, r)
 RTypedefChain(P, f)   == \E i \in Idx(FileOf(P, f).tds) : Cat(P, f, FileOf(P, f).tds[i].type).cat = "cycle"
 
 RUndefinedConst(P, f) == \E ps \in ValueIds(FileOf(P, f)) : Interpretations(P, f, ps) = 0
